@@ -246,7 +246,15 @@ func (st *StateTransition) TransitionDb() (*core.ExecutionResult, error) {
 
 	// Set up the initial access list.
 	if rules.IsBerlin {
-		activePrecompiles := append(corevm.ActivePrecompiles(rules), st.evm.GetCustomPrecompiledContractsAddress()...)
+		activePrecompiles := append([]common.Address{}, corevm.ActivePrecompiles(rules)...)
+		for _, customPrecompiledContractAddr := range st.evm.GetCustomPrecompiledContractsAddress() {
+			if customPrecompiledContractAddr == (common.Address{}) {
+				// the list provided by the EVM is padded with zero addresses,
+				// and the zero address is never a custom precompiled contract so it must not be warmed
+				continue
+			}
+			activePrecompiles = append(activePrecompiles, customPrecompiledContractAddr)
+		}
 		st.state.PrepareAccessList(msg.From(), msg.To(), activePrecompiles, msg.AccessList())
 	}
 	var (
